@@ -1,8 +1,13 @@
 package msg
 
 import (
+	"sort"
+
+	"google.golang.org/protobuf/internal/encoding/messageset"
+	"google.golang.org/protobuf/internal/flags"
 	"google.golang.org/protobuf/internal/verifh/core"
 	"google.golang.org/protobuf/reflect/protoreflect"
+	"google.golang.org/protobuf/reflect/protoregistry"
 )
 
 // Module "schema": {types: [names]} -> out {schema: {...}}; used by the runner to export the Schema constant.
@@ -21,4 +26,54 @@ func init() {
 		}
 		return core.Case{"schema": ExportSchema(roots...)}
 	}})
+}
+
+// Module "typelist": out {types: [every message type registered in the process, sorted]}; the runner draws the
+// rotating part of the driver corpus from it, so that every shape of message the repository's test schemas contain
+// (not only the hand-picked corpus) is eventually driven.
+func init() {
+	core.Register(&core.Module{Name: "typelist", Exec: func(c core.Case) core.Case {
+		var names []any
+		var ss []string
+		protoregistry.GlobalTypes.RangeMessages(func(mt protoreflect.MessageType) bool {
+			// MessageSet wire format exists only in protolegacy builds (C47 drives it there): without the tag every
+			// Marshal/Unmarshal of such a type is refused by design, which the generic history machine does not model
+			if !mt.Descriptor().IsMapEntry() && (flags.ProtoLegacy || !reachesMessageSet(mt.Descriptor(), map[protoreflect.FullName]bool{})) {
+				ss = append(ss, string(mt.Descriptor().FullName()))
+			}
+			return true
+		})
+		sort.Strings(ss)
+		for _, s := range ss {
+			names = append(names, s)
+		}
+		return core.Case{"types": names}
+	}})
+}
+
+func reachesMessageSet(md protoreflect.MessageDescriptor, seen map[protoreflect.FullName]bool) bool {
+	if seen[md.FullName()] {
+		return false
+	}
+	seen[md.FullName()] = true
+	if messageset.IsMessageSet(md) {
+		return true
+	}
+	found := false
+	visit := func(fd protoreflect.FieldDescriptor) {
+		if fd.IsMap() {
+			fd = fd.MapValue()
+		}
+		if fd.Message() != nil && reachesMessageSet(fd.Message(), seen) {
+			found = true
+		}
+	}
+	for i := 0; i < md.Fields().Len(); i++ {
+		visit(md.Fields().Get(i))
+	}
+	protoregistry.GlobalTypes.RangeExtensionsByMessage(md.FullName(), func(xt protoreflect.ExtensionType) bool {
+		visit(xt.TypeDescriptor())
+		return true
+	})
+	return found
 }
